@@ -180,7 +180,9 @@ where
 
     // Verify the header checksum if requested
     if let Some(ref expected_checksum) = opts.header_checksum {
-        if *expected_checksum != *archive.header_checksum() {
+        // Compare the complete checksums (HashSum's own equality only looks at the
+        // common prefix, which would accept a truncated or even empty checksum).
+        if expected_checksum.slice() != archive.header_checksum().slice() {
             return Err(anyhow!("Header checksum mismatch"));
         } else {
             info!("Header checksum verified OK");
